@@ -21,15 +21,18 @@ import (
 )
 
 type stressOpts struct {
-	Name       string
-	Bed        BedOpts
-	Workers    int // per listener kind
-	PerWorker  int // queries per worker
-	HotNames   int
-	UniqueFrac float64
-	MaxDelayMs int
-	Abandon    float64 // probability that a client abandons (closes) its connection mid-request
-	Seed       int64
+	Name        string
+	Bed         BedOpts
+	Workers     int // per listener kind
+	PerWorker   int // queries per worker
+	HotNames    int
+	UniqueFrac  float64
+	MaxDelayMs  int
+	Abandon     float64 // probability that a client abandons (closes) its connection mid-request
+	Seed        int64
+	LateReplies int           // number of queries (per pipelined upstream) whose reply arrives after the 6 s request deadline
+	MinDuration time.Duration // keep the workload running at least this long (so that late replies meet live traffic)
+	asked       *sync.Map
 }
 
 type stressViolation struct {
@@ -38,6 +41,7 @@ type stressViolation struct {
 }
 
 type stressResult struct {
+	asked                                                *sync.Map
 	Sent, Answered, Keyed, ServFail, Timeouts, Abandoned int64
 	CacheHits                                            int64 // responses whose serial was issued before the query was sent... (approx: serial seen before)
 	Violations                                           []stressViolation
@@ -61,6 +65,14 @@ type stressQ struct {
 }
 
 func stressMkQuery(r *gen.R, o *stressOpts, ups []string, worker, seq int) *stressQ {
+	sq := stressMkQuery0(r, o, ups, worker, seq)
+	if o.asked != nil {
+		o.asked.Store(fmt.Sprintf("%s|%s/%d/%d", sq.tag, strings.ToLower(sq.q.Name), sq.q.Qtype, sq.q.Qclass), true)
+	}
+	return sq
+}
+
+func stressMkQuery0(r *gen.R, o *stressOpts, ups []string, worker, seq int) *stressQ {
 	up := gen.Pick(r, ups)
 	var first string
 	kind := "ok"
@@ -123,6 +135,9 @@ func runStress(c *Ctx, o stressOpts) *stressResult {
 		}
 		mu.Unlock()
 	}
+	asked := &sync.Map{} // tag|lower(name)/type/class of every question any client sent
+	res.asked = asked
+	o.asked = asked
 	serialSeen := sync.Map{} // tag/serial -> question string of first sighting
 	judge := func(listener string, sq *stressQ, data []byte, tRecv int64) {
 		atomic.AddInt64(&res.Answered, 1)
@@ -174,6 +189,31 @@ func runStress(c *Ctx, o stressOpts) *stressResult {
 	}
 
 	var wg sync.WaitGroup
+	started := time.Now()
+	if o.LateReplies > 0 {
+		// replies that arrive after the 6 s request deadline, on the multiplexed upstream transports,
+		// while the rest of the workload keeps those connections busy: whatever they carry must never
+		// surface in anybody's answer
+		for _, up := range ups {
+			if up != "udp" && up != "pipe" && up != "dotp" {
+				continue
+			}
+			for k := 0; k < o.LateReplies; k++ {
+				wg.Add(1)
+				go func(up string, k int) {
+					defer wg.Done()
+					name := fmt.Sprintf("ok-n3-d%d-late%dx%d.%s.test.", 6300+k*150, k, o.Seed, up)
+					q := dns.Question{Name: name, Qtype: dns.TypeA, Qclass: dns.ClassINET}
+					asked.Store(fmt.Sprintf("%s|%s/%d/%d", up, name, q.Qtype, q.Qclass), true)
+					atomic.AddInt64(&res.Sent, 1)
+					x := b.Exchange("tcp", mkQuery(uint16(9000+k), name, dns.TypeA, dns.ClassINET, false), xOpts{Timeout: 9 * time.Second})
+					if x.Err == nil && len(x.Resp) > 0 {
+						judge("tcp", &stressQ{wire: nil, q: q, tag: up, id: uint16(9000 + k), kind: "ok"}, x.Resp, x.TRecv)
+					}
+				}(up, k)
+			}
+		}
+	}
 	for _, listener := range listeners {
 		for w := 0; w < o.Workers; w++ {
 			wg.Add(1)
@@ -181,6 +221,12 @@ func runStress(c *Ctx, o stressOpts) *stressResult {
 				defer wg.Done()
 				r := gen.New(o.Seed, "stress/"+o.Name+"/"+listener, w)
 				stressWorker(b, listener, w, r, &o, ups, res, judge)
+				for round := 1; time.Since(started) < o.MinDuration && b.Proxy.Alive(); round++ {
+					r2 := gen.New(o.Seed, fmt.Sprintf("stress/%s/%s/extra%d", o.Name, listener, round), w)
+					o2 := o
+					o2.PerWorker = 40
+					stressWorker(b, listener, w+1000*round, r2, &o2, ups, res, judge)
+				}
 			}(listener, w)
 		}
 	}
@@ -193,6 +239,11 @@ func runStress(c *Ctx, o stressOpts) *stressResult {
 		var last int64
 		for _, ql := range s.Log() {
 			res.UpstreamQueries++
+			if ql.BadQuery != "" && !strings.HasPrefix(ql.BadQuery, "pack:") {
+				viol("upstream-got-malformed-query", fmt.Sprintf("upstream %s received a query that is not a single well-formed question: %s", tag, ql.BadQuery), map[string]any{"upstream": tag, "raw_hex": hex.EncodeToString(ql.Raw)})
+			} else if _, ok := asked.Load(fmt.Sprintf("%s|%s/%d/%d", tag, strings.ToLower(ql.Name), ql.Qtype, ql.Qclass)); !ok {
+				viol("upstream-got-unasked-question", fmt.Sprintf("upstream %s received the question %s type %d class %d which no client asked (a recycled or corrupted question reached the wire)", tag, ql.Name, ql.Qtype, ql.Qclass), map[string]any{"upstream": tag, "name": ql.Name, "qtype": ql.Qtype, "qclass": ql.Qclass})
+			}
 			if ql.Serial != 0 {
 				m[ql.Serial] = ql
 			}
